@@ -206,20 +206,58 @@ theorem encoding_false_witness (strict : Bool) (id : Bytes) (c : Commit)
       exact ⟨(d, some (bs "latin1")), by simp [hl, Except.map]⟩
   obtain ⟨⟨⟨cm, au, msg⟩, impl⟩, hd⟩ := hd
   have hxx : importExtra strict c.extra = .ok ([], []) := by rw [hx]; rfl
-  have himp : importCommit strict id c = .ok
-      { revisionId := foreignToBzr id, committer := cm,
-        message := (match msg with
-          | some m => m
-          | none => ⟨cm.codec, []⟩),
-        timestamp := c.commitTime, timezone := c.commitTz,
-        parents := c.parents.map foreignToBzr, props := importProps c impl au msg [] } := by
-    unfold importCommit
-    simp only [hd, hxx]
-    simp
-  refine ⟨_, himp, ?_⟩
-  unfold exportCommit
-  simp only [exportParents_map c.parents hpar, importProps, he, encName]
-  have : resolve (bs "false") = none := by decide
-  simp [this]
+  have hres : resolve (bs "false") = none := by decide
+  cases hi : importCommit strict id c with
+  | error e =>
+    unfold importCommit at hi
+    simp only [hd, hxx] at hi
+    simp at hi
+  | ok rev =>
+    refine ⟨rev, rfl, ?_⟩
+    unfold importCommit at hi
+    simp only [hd, hxx] at hi
+    simp only [ne_eq, not_true_eq_false, false_and, if_false, Except.ok.injEq] at hi
+    subst hi
+    unfold exportCommit
+    simp only [exportParents_map c.parents hpar, importProps, he, encName, hres]
+
+/-- **Canonical identifiers are fixed points.**  `name <email>` with no `<` in the
+name and no `<`/`>` in the email is returned unchanged (the name may contain `>`). -/
+theorem fixPerson_canonical (name email : Bytes) (hn : 60 ∉ name) (he : 60 ∉ email)
+    (he' : 62 ∉ email) :
+    fixPerson (name ++ bs " <" ++ email ++ bs ">") = some (name ++ bs " <" ++ email ++ bs ">") := by
+  have hb1 : bs " <" = [32, 60] := by decide
+  have hb2 : bs ">" = [62] := by decide
+  rw [hb1, hb2]
+  generalize ht' : name ++ [32, 60] ++ email ++ [62] = t
+  have ht : t = name ++ [32, 60] ++ email ++ [62] := ht'.symm
+  have m62 : (62 : UInt8) ∈ t := by simp [ht]
+  have m60 : (60 : UInt8) ∈ t := by simp [ht]
+  have hg : ridx 62 t = some (t.length - 1) := by
+    unfold ridx
+    have : t.reverse = 62 :: (name ++ [32, 60] ++ email).reverse := by simp [ht]
+    rw [this]; simp [idx]
+  obtain ⟨i, hi, hil⟩ := idx_some_of_mem 60 t.reverse (by simpa using m60)
+  have hl : ridx 60 t = some (t.length - 1 - i) := by unfold ridx; simp [hi]
+  have hsplit : lastTwoOfSplit2 t = some (name ++ [32], email ++ [62]) := by
+    unfold lastTwoOfSplit2
+    have h1 : t = (name ++ [32]) ++ 60 :: (email ++ [62]) := by simp [ht]
+    have hn' : (60 : UInt8) ∉ name ++ [32] := by simp [hn]
+    have he2 : (60 : UInt8) ∉ email ++ [62] := by simp [he]
+    rw [h1, split1_nosep 60 _ _ hn']
+    simp [split1_none 60 _ he2]
+  unfold fixPerson
+  have c1 : ¬ ((60 : UInt8) ∉ t ∧ (62 : UInt8) ∉ t) := fun h => h.1 m60
+  have c2 : ¬ ((62 : UInt8) ∉ t) := fun h => h m62
+  rw [if_neg c1, if_neg c2]
+  simp only [hg, hl, hsplit]
+  have : ¬ (t.length - 1 < t.length - 1 - i) := by omega
+  rw [if_neg this]
+  have hemail : (email ++ [62]).takeWhile (· ≠ 62) = email := takeWhile_append_sep 62 email [] he'
+  simp only [ne_eq, decide_not] at hemail
+  simp [hemail, ht, hb1, hb2]
+
+example : fixPerson (bs "A b <a@x>") = some (bs "A b <a@x>") := by decide
+example : fixPerson (bs " <>") = some (bs " <>") := by decide
 
 end BreezyVerif.C34
